@@ -283,6 +283,12 @@ pub fn window_entries(family: u32, n: usize) -> Vec<SEntry> {
                 id += (1u64 << 30) + ((r >> 16) % (1u64 << 34));
                 off += u64::from(len);
             }
+            // perfectly regular: consecutive ids, constant length, contiguous offsets (compresses to ~100 bytes)
+            3 => {
+                out.push(SEntry::new(id, off, 64, 1));
+                id += 1;
+                off += 64;
+            }
             _ => {
                 let len = 1 + (r % 200) as u32;
                 let run = 1 + ((r >> 12) % 4) as u32;
